@@ -180,8 +180,6 @@ Qed.
 Section Trees.
   Variable num : numparser.
   Variable funcs : pydict signature.               (* the table the parser consults *)
-  Variable sfuncs : list (string * typed).         (* the declared functions as the spec reads them *)
-  Hypothesis Hfuncs : forall f sg, dget funcs f = Some sg -> lookup f sfuncs = Some sg.
   Hypothesis Hfkey : forall f sg, dget funcs f = Some sg -> str_in f keywords = false.
 
   Lemma read_nexp_app h args :
@@ -201,10 +199,9 @@ Section Trees.
   Qed.
 
   Lemma construct_faithful : forall fuel e t n,
-    construct num funcs fuel e = Ok t -> read_nexp num e = Some n ->
-    nexp_applied_ok sfuncs n = true -> denote_tree t = Some n.
+    construct num funcs fuel e = Ok t -> read_nexp num e = Some n -> denote_tree t = Some n.
   Proof.
-    induction fuel as [|fu IH]; intros e t n Hc Hr Hok; [discriminate|].
+    induction fuel as [|fu IH]; intros e t n Hc Hr; [discriminate|].
     destruct e as [s|l]; cbn [construct] in Hc.
     - unfold leaf_number in Hc. destruct (str_in s legal_numerical); [discriminate|].
       simpl in Hr. destruct (num s) as [x|]; [|discriminate]. injection Hc as <-. injection Hr as <-. reflexivity.
@@ -221,11 +218,8 @@ Section Trees.
           destruct (atoms_of args) as [args'|k] eqn:Eargs; simpl in Hc; [|discriminate].
           rewrite read_nexp_app in Hr by (eauto using numeric_ops_binop_false).
           rewrite (atoms_of_atom_names _ _ Eargs) in Hr. injection Hr as <-.
-          destruct args' as [|x xs].
-          -- injection Hc as <-. simpl in Hok. rewrite (Hfuncs _ _ Ef) in Hok.
-             destruct sg; [reflexivity|discriminate].
-          -- destruct (negb _); [discriminate|]. destruct (has_dup _); [discriminate|].
-             injection Hc as <-. reflexivity.
+          destruct (negb _); [discriminate|]. destruct (has_dup _); [discriminate|].
+          injection Hc as <-. reflexivity.
       + destruct l as [|[h|sub] [|a [|b [|c r]]]]; try discriminate.
         destruct (construct num funcs fu a) as [ta|] eqn:Eta; simpl in Hc; [|discriminate].
         destruct (construct num funcs fu b) as [tb|] eqn:Etb; simpl in Hc; [|discriminate].
@@ -233,8 +227,7 @@ Section Trees.
         destruct (read_binop h) as [o|] eqn:Eo.
         * destruct (read_nexp num a) as [x|] eqn:Ex; [|discriminate].
           destruct (read_nexp num b) as [y|] eqn:Ey; [|discriminate]. injection Hr as <-.
-          simpl in Hok. apply andb_true_iff in Hok as [Hx Hy].
-          simpl. rewrite binop_of_read, Eo, (IH _ _ _ Eta Ex Hx), (IH _ _ _ Etb Ey Hy). reflexivity.
+          simpl. rewrite binop_of_read, Eo, (IH _ _ _ Eta Ex), (IH _ _ _ Etb Ey). reflexivity.
         * exfalso. destruct (str_in h keywords); [discriminate|].
           destruct (atom_names [a; b]) eqn:Eab; [|discriminate].
           assert (Hall : all_atoms [a; b] = true) by (apply all_atoms_atom_names; congruence).
@@ -348,14 +341,6 @@ Proof.
   simpl. repeat split; reflexivity.
 Qed.
 
-Lemma form_ok_cmp sfuncs c x y :
-  form_ok sfuncs (FCmp c x y) = true -> nexp_applied_ok sfuncs x = true /\ nexp_applied_ok sfuncs y = true.
-Proof.
-  intros H. assert (H' : nexp_applied_ok sfuncs x && nexp_applied_ok sfuncs y = true).
-  { destruct c, x, y; simpl in H |- *; try exact H; try discriminate. }
-  apply andb_true_iff in H'. exact H'.
-Qed.
-
 (* ---------- PreconditionsParser.parse ---------- *)
 Section ParsePre.
   Variable num : numparser.
@@ -363,8 +348,6 @@ Section ParsePre.
   Variable consts : pydict string.
   Variable preds : pydict signature.
   Variable funcs : pydict signature.
-  Variable sfuncs : list (string * typed).
-  Hypothesis Hfuncs : forall f sg, dget funcs f = Some sg -> lookup f sfuncs = Some sg.
   Hypothesis Hfkey : forall f sg, dget funcs f = Some sg -> str_in f keywords = false.
   Hypothesis Hpkey : forall p, dmem preds p = true -> str_in p keywords = false.
 
@@ -450,7 +433,7 @@ Section ParsePre.
     forall sg root nodes r fs fr,
       parse_pre' fuel sg root nodes = Ok r ->
       all_some (map (read_form num) nodes) = Some fs ->
-      forallb (form_ok sfuncs) fs = true ->
+      forallb (form_ok) fs = true ->
       denote_list root = Some fr ->
       exists fr', denote_list r = Some fr' /\ pre_op r = pre_op root /\
                   exists fs', Permutation fr' (fr ++ fs') /\ Forall2 form_equiv fs' fs.
@@ -461,11 +444,11 @@ Section ParsePre.
     String.eqb h "and" || String.eqb h "or" = true ->
     parse_pre' fu sg (MPre h [] [] []) subs = Ok nested ->
     read_form num (SList (Atom h :: subs)) = Some g ->
-    form_ok sfuncs g = true ->
+    form_ok g = true ->
     exists x', denote_pre nested = Some x' /\ form_equiv x' g.
   Proof.
     intros IH Hh Hp Hr Hok.
-    assert (Hg : exists gs, all_some (map (read_form num) subs) = Some gs /\ forallb (form_ok sfuncs) gs = true /\
+    assert (Hg : exists gs, all_some (map (read_form num) subs) = Some gs /\ forallb (form_ok) gs = true /\
                             g = connective h gs).
     { apply orb_true_iff in Hh as [Hh|Hh]; apply String.eqb_eq in Hh; subst h.
       - rewrite read_form_and in Hr. destruct (all_some (map (read_form num) subs)) as [gs|]; [|discriminate].
@@ -497,10 +480,9 @@ Section ParsePre.
   Lemma cmp_node_faithful h l r t c x y :
     construct num funcs (tree_fuel (SList [Atom h; l; r])) (SList [Atom h; l; r]) = Ok t ->
     read_cmpop h = Some c -> read_nexp num l = Some x -> read_nexp num r = Some y ->
-    nexp_applied_ok sfuncs x = true -> nexp_applied_ok sfuncs y = true ->
     denote_cmp t = Some (FCmp c x y).
   Proof.
-    intros Hc Hcmp Hx Hy Hox Hoy. unfold tree_fuel in Hc.
+    intros Hc Hcmp Hx Hy. unfold tree_fuel in Hc.
     remember (size (SList [Atom h; l; r])) as fu0 eqn:Efu. clear Efu. cbn [construct] in Hc.
     destruct (cmp_is_keyword h c Hcmp) as (Hk & Hn & _).
     destruct (all_atoms [Atom h; l; r]) eqn:Ea.
@@ -509,15 +491,15 @@ Section ParsePre.
     - destruct (construct num funcs fu0 l) as [ta|] eqn:Eta; cbn [bind] in Hc; [|discriminate].
       destruct (construct num funcs fu0 r) as [tb|] eqn:Etb; cbn [bind] in Hc; [|discriminate].
       injection Hc as <-. simpl. rewrite cmpop_of_read, Hcmp.
-      rewrite (construct_faithful num funcs sfuncs Hfuncs Hfkey _ _ _ _ Eta Hx Hox).
-      rewrite (construct_faithful num funcs sfuncs Hfuncs Hfkey _ _ _ _ Etb Hy Hoy). reflexivity.
+      rewrite (construct_faithful num funcs Hfkey _ _ _ _ Eta Hx).
+      rewrite (construct_faithful num funcs Hfkey _ _ _ _ Etb Hy). reflexivity.
   Qed.
 
   Lemma node_step_faithful fu sg root h args root' f fr :
     pre_statement fu ->
     node_step fu sg root (SList (Atom h :: args)) h = Ok root' ->
     read_form num (SList (Atom h :: args)) = Some f ->
-    form_ok sfuncs f = true ->
+    form_ok f = true ->
     denote_list root = Some fr ->
     exists fr1 x', denote_list root' = Some fr1 /\ pre_op root' = pre_op root /\
                    Permutation fr1 (fr ++ [x']) /\ form_equiv x' f.
@@ -585,9 +567,8 @@ Section ParsePre.
       - destruct rest as [|r0 [|z zs]]; try discriminate Hr.
         destruct (read_nexp num (SList l0)) as [x|] eqn:Ex; [|discriminate Hr].
         destruct (read_nexp num r0) as [y|] eqn:Ey; [|discriminate Hr]. injection Hr as <-.
-        destruct (form_ok_cmp _ _ _ _ Hok) as [Hox Hoy].
         destruct (construct num funcs _ _) as [t|] eqn:Et; simpl in Hs; [|discriminate]. injection Hs as <-.
-        pose proof (cmp_node_faithful "=" (SList l0) r0 t CEq x y Et eq_refl Ex Ey Hox Hoy) as Hden.
+        pose proof (cmp_node_faithful "=" (SList l0) r0 t CEq x y Et eq_refl Ex Ey) as Hden.
         exists (fr ++ [FCmp CEq x y]), (FCmp CEq x y).
         split; [apply denote_list_add_operand; [exact Hd|exact Hden]|].
         split; [apply pre_op_add_operand|]. split; [apply Permutation_refl|apply form_equiv_refl]. }
@@ -612,9 +593,8 @@ Section ParsePre.
            destruct (read_nexp num r) as [y|] eqn:Ey; [|discriminate Hr];
            injection Hr as <-; exists l, r, x, y; repeat split; assumption). }
       destruct Hargs as (l & r & x & y & -> & Ex & Ey & ->).
-      destruct (form_ok_cmp _ _ _ _ Hok) as [Hox Hoy].
       destruct (construct num funcs _ _) as [t|] eqn:Et; simpl in Hs; [|discriminate]. injection Hs as <-.
-      pose proof (cmp_node_faithful h l r t c x y Et Hc Ex Ey Hox Hoy) as Hden.
+      pose proof (cmp_node_faithful h l r t c x y Et Hc Ex Ey) as Hden.
       exists (fr ++ [FCmp c x y]), (FCmp c x y).
       split; [apply denote_list_add_operand; [exact Hd|exact Hden]|].
       split; [apply pre_op_add_operand|]. split; [apply Permutation_refl|apply form_equiv_refl]. }
@@ -671,7 +651,7 @@ Section ParsePre.
   Theorem parse_preconditions_faithful sg e p f :
     parse_preconditions num tt consts preds funcs sg e = Ok p ->
     read_precondition num e = Some f ->
-    form_ok sfuncs f = true ->
+    form_ok f = true ->
     exists f', denote_pre p = Some f' /\ form_equiv f' f.
   Proof.
     intros Hp Hr Hok. destruct e as [s|l]; [discriminate|].
